@@ -16,7 +16,7 @@ ENV = dict(os.environ, GOFLAGS="-mod=mod", GOPROXY="off", GOSUMDB="off", GOTOOLC
 # file -> (functions or None for all, checks cheapest first)
 TARGETS = {
  "motion/frameloop.go": (None, ["C19", "C16", "C02", "C01"]),
- "motion/motionprocessor.go": (None, ["C03", "C13", "C04", "C17", "C12", "C01", "C02", "C16"]),
+ "motion/motionprocessor.go": (None, ["C03", "C13", "C04", "C17", "C12", "C01", "C02", "C16", "C14"]),
  "motion/motion.go": (None, ["C09", "C07", "C15", "C08"]),
  "throttle/throttled_recorder.go": (None, ["C06", "C05"]),
  "loglimiter/loglimiter.go": (None, ["C20"]),
@@ -191,8 +191,9 @@ def report():
     p2 = [json.loads(l) for l in open(p2p)] if os.path.exists(p2p) else []
     tri = json.load(open(os.path.join(OUT, "triage.json")))
     def classify(m):
-        for lo, hi, cls, why in tri.get(m["file"], []):
-            if lo <= m["line"] <= hi:
+        for rule in tri.get(m["file"], []):
+            lo, hi, cls, why = rule[:4]
+            if lo <= m["line"] <= hi and (len(rule) < 5 or re.search(rule[4], m["desc"])):
                 return cls, why
         return "UNTRIAGED", ""
     lines = ["# Mutation sweep", "",
